@@ -327,6 +327,12 @@ def c02(ctx):
 # ---------------------------------------------------------------------------------------- C03
 def conserved(ctx, s):
     bufs = ctx.all_buffers(s)
+    seen_ids = set()
+    for b in bufs:
+        # "the job's reported location names that buffer": a location can only name a buffer whose id is its own
+        if b.id in seen_ids:
+            return f"two buffers share the id {b.id}: a location {b.id} does not name one buffer"
+        seen_ids.add(b.id)
     where = {}
     for b in bufs:
         if len(set(b.store)) != len(b.store):
